@@ -241,21 +241,33 @@ def rule_r2(ctx: Ctx, a: Automaton) -> None:
         outs = Interp(a.pl).run_method(b, m, (False, False, 0, False))
         counts = sorted({sum(1 for e in eff if e.kind == "QUEUE") for _, eff in outs})
         ctx.check(counts == [1], fn.short, "QUEUE count per path: %s" % counts, "each attribute statement queues exactly one deferred commit", fn.where())
-        # the deferred callback builds the right attribute from the event's arguments and the doc comment
-        lambdas = [n for n in ast.walk(fn.node) if isinstance(n, ast.Lambda)]
-        good = False
-        detail = None
-        if len(lambdas) == 1 and len(lambdas[0].args.args) == 1:
-            doc = lambdas[0].args.args[0].arg
-            body = lambdas[0].body
-            if isinstance(body, ast.Call) and isinstance(body.func, ast.Attribute) and body.func.attr == adder and norm(body.func.value) == "self._structs[-1]" and len(body.args) == 1 and isinstance(body.args[0], ast.Call):
-                mk = body.args[0]
-                k = repo.resolve_expr(fn.module, mk.func, b)
-                params = fn.params[1:]
-                args = [norm(x) for x in mk.args]
-                good = isinstance(k, ClassInfo) and k.name == klass and args == params + [doc] and not mk.keywords
-                detail = norm(body)
-        ctx.check(good, fn.short, detail or "deferred callback", "the committed attribute is built from the statement's own (type, name[, value]) and the flushed comment", fn.where())
+    # the deferred commits build the right attributes from the events' arguments and the comments flushed after them: the
+    # builder is driven through its public interface (builder_common) and what reaches the composite is compared
+    from ..fold import Sym
+    from . import builder_common as B
+
+    T1, T2, V8 = Sym(_kind_="T1", name="T1"), Sym(_kind_="T2", name="T2"), Sym(_kind_="void8", name="void8")
+    VAL = Sym(_kind_="value")
+    script = [
+        ("on_field", (T1, "a")), ("on_attribute_comment", ("doc a",)),
+        ("on_constant", (T2, "K", VAL)), ("on_attribute_comment", ("doc K",)),
+        ("on_padding_field", (V8,)), ("on_attribute_comment", ("",)),
+        ("on_field", (T2, "b")), ("on_attribute_comment", ("doc b",)),
+        ("on_directive", (9, "sealed", None)),
+    ]
+    r = B.run_builder(ctx, script, allow_unregulated=True)
+    if r.raised:
+        raise AnalysisError("builder over abstract attribute events raised %s at %s" % (r.raised, r.raised_at))
+    leaf = [kw for k, kw in r.ctor_log if k in ("StructureType", "UnionType")]
+    got = []
+    for x in (leaf[0].get("attributes") or []) if leaf else []:
+        d = dict(x.__dict__)
+        got.append((d.get("_kind_"), getattr(d.get("data_type"), "name", None), d.get("name", ""), d.get("value") is VAL if d.get("_kind_") == "Constant" else None, d.get("doc")))
+    want = [("Field", "T1", "a", None, "doc a"), ("PaddingField", "void8", "", None, ""), ("Field", "T2", "b", None, "doc b"), ("Constant", "T2", "K", True, "doc K")]
+    ctx.count()
+    # fields (with paddings) in source order, constants in source order; how the two interleave is not specified
+    split = lambda xs: ([x for x in xs if x[0] != "Constant"], [x for x in xs if x[0] == "Constant"])  # noqa: E731
+    ctx.check(split(got) == split(want) and len(got) == len(want), b.short, "deferred commits -> %s" % [g[:3] for g in got], "the committed attribute is built from the statement's own (type, name[, value]) and the flushed comment; fields and constants keep their source order", b.module.relpath, {"found": got, "expected": want})
     # visitor children <-> grammar positions
     g = a.g
     pt = a.parser
